@@ -144,9 +144,9 @@ func runB(c BCaseRaw, d bPairDef, conc bool) string {
 	return "(GVal " + coqSval(c.Type, readB(c.Type, objs[0])) + ")"
 }
 
-func genBCase(r *Rng, w *CaseWriter) {
-	t := bareTypes[r.Intn(len(bareTypes))]
-	d := bPairs[r.Intn(len(bPairs))]
+func genBCase(r *Rng, w *CaseWriter, k int) {
+	t := bareTypes[k%len(bareTypes)]
+	d := bPairs[(k/len(bareTypes))%len(bPairs)]
 	c := BCaseRaw{Fam: "B", Type: t, G: d.G, Eps: JF([]float64{1e-8, 0.75, 2.5, 0}[r.Intn(4)])}
 	for i := 0; i < 3; i++ {
 		c.Vals = append(c.Vals, genBVal(r, t))
@@ -165,7 +165,7 @@ func genBCase(r *Rng, w *CaseWriter) {
 		c.Vals[1] = c.Vals[0]
 	}
 	g := runB(c, d, false)
-	k := runB(c, d, true)
+	kc := runB(c, d, true)
 	x := readB(t, buildB(t, c.Vals[1])).toF(t)
 	y := readB(t, buildB(t, c.Vals[2])).toF(t)
 	var ents []string
@@ -188,19 +188,19 @@ func genBCase(r *Rng, w *CaseWriter) {
 	if d.Pred {
 		// the receiver is the first operand of the predicate
 		a, b := c.Vals[0], c.Vals[1]
-		coq = fmt.Sprintf("CQ %s %s %s %s %s %s %s", d.Ctor, coqTyName[t], coqSval(t, a), coqSval(t, b), F(float64(c.Eps)), g, k)
+		coq = fmt.Sprintf("CQ %s %s %s %s %s %s %s", d.Ctor, coqTyName[t], coqSval(t, a), coqSval(t, b), F(float64(c.Eps)), g, kc)
 	} else {
 		b := c.Vals[2]
 		if d.Ar < 2 {
 			b = c.Vals[1]
 		}
 		coq = fmt.Sprintf("CB %s %s %s %s %s %s %s %s", d.Ctor, coqTyName[t], coqSval(t, c.Vals[0]), coqSval(t, c.Vals[1]),
-			coqSval(t, b), List(ents), g, k)
+			coqSval(t, b), List(ents), g, kc)
 	}
 	w.Add(coq, c, fmt.Sprintf("B:%s:%s:%v:%v", t, d.G, c.Vals, c.Alias), !in(d.G, "Set", "Sign"))
 	w.Count("B:" + d.G + "/" + d.C)
 	w.Count("B:type:" + t)
-	if g != k {
+	if g != kc {
 		w.Count("B:go-generic-differs-from-go-concrete")
 	}
 	if c.Alias {
@@ -218,12 +218,12 @@ func (v bVal) toF(t string) float64 {
 const hdrB = "From Coq Require Import ZArith List Bool Floats. Import ListNotations.\nFrom ADV Require Import C02.Model C09.ModelB C09.CorrB.\nOpen Scope Z_scope.\n"
 
 func emitBCases(o Opts) {
-	w := NewCaseWriter(o.Out, "bcases", hdrB, "mism", 150)
+	w := NewCaseWriter(o.Out, "bcases", hdrB, "mism", 200)
 	w.Type = "bcase"
 	w.Rule = "B: bare scalar pairs (Float64 Float32 Int Int8..Int64; Add..Div Neg Min Max Abs Set Pow Sqrt Exp Log Log1p, predicates): receiver and operands with values of the type incl. the integer range ends, +-0, +-Inf, NaN, receiver = operand in 1 of 5; non-trivial iff the pair is not Set/Sign"
 	rng := NewRng(o.Seed + 31337)
-	for k := 0; k < 3*o.N; k++ {
-		genBCase(rng.Split(), w)
+	for k := 0; k < 13*o.N; k++ {
+		genBCase(rng.Split(), w, k)
 	}
 	if err := w.Flush(); err != nil {
 		Die("%v", err)
